@@ -41,6 +41,8 @@ def universe():
 
 
 def main():
+    import astlib
+    astlib.AUTO_FUNCS = 0.2       # sqrt exp ln log pow at exact points in a fifth of the generated formulas
     rep = core.Report("C03")
     quick = core.tier() == "quick"
     F, pof = universe()
